@@ -272,4 +272,30 @@ theorem mul_div_self_nat (D : Rat) (n : Nat) (hn : 0 < n) : (n : Rat) * (D / (n 
   have : ((n : Nat) : Rat) ≠ 0 := by exact_mod_cast (Nat.pos_iff_ne_zero.mp hn)
   field_simp
 
+/-! ### voxel ∘ coordinate = floor, for arbitrary rational voxel positions -/
+
+theorem vadd_floor_frac (w : List Rat) :
+    vadd (w.map Rat.floor) (w.map fun x => x - ((Rat.floor x : Int) : Rat)) = w := by
+  induction w with
+  | nil => rfl
+  | cons x w ih =>
+    simp only [vadd, List.map_cons, List.zipWith_cons_cons] at ih ⊢
+    rw [ih]; congr 1; ring
+
+/-- `voxel(coordinate(w))` is the componentwise floor of `w`, for every rational position `w` -/
+theorem voxel_coord_floor_with (cs : CS) (hcs : cs.ok) (am : AxisMap) (hw : am.wf cs.dim = true)
+    (w : List Rat) (hl : w.length = cs.dim.toNat) :
+    voxelWith am cs (coordWith am cs w) = w.map Rat.floor := by
+  have h := voxel_of_inside_with cs hcs am hw (w.map Rat.floor)
+    (w.map fun x => x - ((Rat.floor x : Int) : Rat)) (by simp [hl]) (by simp [hl]) (by
+      intro x hx
+      rw [List.mem_map] at hx
+      obtain ⟨y, _, rfl⟩ := hx
+      have h1 := Rat.floor_le y
+      have h2 := Rat.lt_floor_add_one y
+      push_cast at h2
+      constructor <;> linarith)
+  rw [vadd_floor_frac] at h
+  exact h
+
 end Darsia
